@@ -567,7 +567,11 @@ func writeEvidence(id, tier string, seed int, results []*RunResult, cross []stri
 	if spec != nil {
 		ev["assumptions"] = spec.Assumptions
 	}
-	os.MkdirAll(filepath.Join(verifDir(), "evidence"), 0o755)
+	evDir := filepath.Join(verifDir(), "evidence")
+	if d := os.Getenv("VERIF_EVIDENCE_DIR"); d != "" {
+		evDir = d // experiments against a scratch worktree (seeded changes) must not overwrite the evidence of /repo
+	}
+	os.MkdirAll(evDir, 0o755)
 	b, _ := json.MarshalIndent(ev, "", " ")
-	os.WriteFile(filepath.Join(verifDir(), "evidence", id+".json"), b, 0o644)
+	os.WriteFile(filepath.Join(evDir, id+".json"), b, 0o644)
 }
